@@ -87,7 +87,7 @@ def attribute(run, trace, idx):
 
 
 def consts_of(c):
-    return dict(NE=c["max_elems"], Interval=int(c["interval"]), SyncCons=c["cons"][0] == "sync", MaxTime=1000,
+    return dict(NE=c["max_elems"], Interval=amod.seconds(c["interval"]), SyncCons=c["cons"][0] == "sync", MaxTime=100000000,
                 Unique="none" if c["kind"] == "timed_window" else c.get("keep", "first"), Mod=c.get("mod", 2),
                 ReleaseEarly=False)
 
@@ -118,6 +118,7 @@ def run(tier, seed, mutant=None, only_validate=False):
         for keep in ("first", "last"):
             for c in ("future", "sync"):
                 cfgs.append({"kind": "timed_window_unique", "interval": 2, "keep": keep, "mod": 2, "cons": [c], "max_elems": ne})
+        cfgs += [{"kind": "timed_window", "interval": "2d", "cons": ["sync"], "max_elems": 3}]
         if tier != "quick":
             cfgs += [{"kind": "timed_window", "interval": 3, "cons": ["future"], "max_elems": ne},
                      {"kind": "timed_window_unique", "interval": 1, "keep": "last", "mod": 3, "cons": ["coro"], "max_elems": ne}]
